@@ -77,12 +77,25 @@ def run(ctx: Ctx) -> None:
         "single quotes": dict(quote="'", indent=4, spacer=" "),
         "newlinechar CRLF": dict(newlinechar="\r\n", indent=2, spacer=" "),
     }
+    if ctx.tier == "thorough":
+        # the full cross product the property names (indent 0..8 x spacer x quote x end_comment x align_values x separate_complex_types)
+        import itertools
+
+        for indent, spacer, quote, ec, al, sep in itertools.product(range(0, 9), (" ", "\t"), ('"', "'"), (False, True), (False, True), (False, True)):
+            settings[f"indent={indent} spacer={spacer!r} quote={quote} end_comment={ec} align_values={al} separate_complex_types={sep}"] = dict(indent=indent, spacer=spacer, quote=quote, end_comment=ec, align_values=al, separate_complex_types=sep)
+        ctx.units["option_sets"] = len(settings)
     locf = repo.loc("pprint", repo.func("pprint.PrettyPrinter._format"))
     for rname, mk in reps.items():
-        base = L.format_lines(mk, lambda: L.sym_options(end_comment=False, indent=4, spacer=" ", newlinechar="\n"), level=0, fork=False)
-        if len(base) != 1 or base[0][1] != "return":
-            raise AnalysisError(f"_format not evaluable on {rname}: {base}")
-        base_keys = [content_key(ln, '"') for ln in base[0][2]]
+        bases = {}
+        for sepflag in (False, True):
+            base = L.format_lines(mk, lambda sepflag=sepflag: L.sym_options(end_comment=False, indent=4, spacer=" ", newlinechar="\n", separate_complex_types=sepflag), level=0, fork=False)
+            if len(base) != 1 or base[0][1] != "return":
+                raise AnalysisError(f"_format not evaluable on {rname}: {base}")
+            bases[sepflag] = [content_key(ln, '"') for ln in base[0][2]]
+        # separate_complex_types may reorder (decided by O3); every other option is compared with the
+        # default formatting under the same separate_complex_types value
+        if sorted(map(repr, bases[True])) != sorted(map(repr, bases[False])):
+            ctx.finding("O2", f"{rname} | separate_complex_types", locf, "separate_complex_types changes the set of lines, not only their order")
         for sname, over in settings.items():
             opts = dict(end_comment=False)
             opts.update(over)
@@ -94,6 +107,7 @@ def run(ctx: Ctx) -> None:
                 ctx.finding("O2", f"{rname} | {sname}", locf, f"_format raises {lines} under this option setting")
                 continue
             keys = [content_key(ln, over.get("quote", '"')) for ln in lines]
+            base_keys = bases[bool(over.get("separate_complex_types"))]
             diffs = [(i, a, b) for i, (a, b) in enumerate(zip(base_keys, keys)) if a != b]
             glued = []
             for ln in lines:
